@@ -4,6 +4,7 @@ import (
 	"container/list"
 	"crypto/sha256"
 	"errors"
+	"fmt"
 	"maps"
 	"slices"
 	"strings"
@@ -59,6 +60,8 @@ func (cache *Cache) evict() {
 func cacheKey(digest hotstuff.Hash, signature hotstuff.QuorumSignature) string {
 	var key strings.Builder
 	_, _ = key.Write(digest[:])
+	// the kind of signature is part of what was verified: the same bytes under another scheme's type are not
+	_, _ = fmt.Fprintf(&key, "%T|", signature)
 	_, _ = key.Write(hotstuff.ID(signature.Participants().Len()).ToBytes())
 	signature.Participants().ForEach(func(id hotstuff.ID) {
 		_, _ = key.Write(id.ToBytes())
